@@ -144,6 +144,11 @@ def cases(rng, quick, gr):
         ty = rng.choice(["float", "complex", "int"])
         t = array_text(rng, ty, "A", r, c, rng.choice([None, (r, c)]), params=ps)
         yield {"tag": "array-params", "text": HDR + t + "Op(A) | 0\n"}
+    # arrays called p<digits> in a tdm program are arrays like any other: rows and columns as written
+    for r, c in [(2, 2), (2, 3), (3, 1), (3, 2)]:
+        for shp in ("", "[%d, %d]" % (r, c)):
+            rows = "\n".join("    " + ", ".join(str(10 * i + j) for j in range(c)) for i in range(r))
+            yield {"tag": "tdm-parray-layout", "text": "name t\nversion 1.0\ntype tdm (temporal_modes=2)\nint array p1%s =\n%s\nfloat array p0 =\n    0.5, 1.5\nOp(p1[%d], p0[1]) | 0\n" % (shp, rows, r * c - 1)}
     # whole-array parameter with a declared shape
     for r, c in [(1, 1), (2, 2), (2, 3), (3, 1)]:
         yield {"tag": "array-template", "text": HDR + "float array A[%d, %d] =\n    {U}\nOp(A) | 0\n" % (r, c)}
